@@ -4,7 +4,8 @@
     What the model captures is the *state handling* of the code: detectors hold a reference to a
     scorer object (possibly shared), `predict` first refits the referenced scorer on its argument,
     `fit` stores the training data and the fitted parameters, `update` combines the remembered
-    training data with the new chunk and refits, `set_params` resets the fit.  Core Lean only. -/
+    training data with the new chunk and refits, `set_params` resets the fit; calls that raise leave the
+    object not fitted (`fit`) or unchanged (`update`).  Core Lean only. -/
 namespace Skc
 
 abbrev Params := Nat
@@ -34,6 +35,11 @@ inductive Op where
   | setScorerParams (s : Nat) (p : Params)
   | scorerFit (s : Nat) (X : Data)
   | scorerEval (s : Nat) (cuts : Nat)
+  /-- calls that raise: a `fit` rejected inside `_fit` (after the data were taken), an `update` whose batch is rejected,
+      a scorer `fit` that is rejected -/
+  | fitRejected (d : Nat) (X : Data)
+  | updateRejected (d : Nat) (X : Data)
+  | scorerFitRejected (s : Nat) (X : Data)
 
 /-- uninterpreted semantics, as functions of exactly what the property allows results to depend on -/
 structure Sem where
@@ -92,6 +98,14 @@ def step (sem : Sem) (h : Heap) : Op → Heap × Option Nat
     match o.fitted with
     | none => (h, none)
     | some X => (h, some (sem.eval o.params X cuts))
+  | .fitRejected d X =>
+    -- the object is marked as not fitted before anything else happens (repair #28); the data reference is replaced
+    let o := h.dets d
+    ({ h with dets := updD h.dets d { o with train := some X, fittedOn := none } }, none)
+  | .updateRejected _ _ => (h, none)          -- the remembered data are restored (repair #29): nothing changes
+  | .scorerFitRejected s _ =>
+    let o := h.scorers s
+    ({ h with scorers := updS h.scorers s { o with fitted := none } }, none)
 
 /-- run a history; outputs in call order -/
 def runHist (sem : Sem) : Heap → List Op → List (Option Nat)
